@@ -50,6 +50,24 @@ def service_table(ctx):
             return None, None
         mode_val[name] = list(vals)[0]
         ctx.ob(P, 'RF1-lss-global', 'COLssSwitchStateGlobal', 'mode byte %d' % byte1, 'Mode := %d' % mode_val[name])
+    # every other mode byte (2..255 are reserved): the slave ends in one of the two service states, never in a value
+    # that no row of the service table allows (it would then ignore every LSS request until the next reset)
+    legal = set(mode_val.values())
+    bad_bytes = []
+    for byte1 in range(2, 256):
+        trs = pe.run(_frame_inputs(4, extra={'frm->Data[1]': byte1, 'lss->Mode': mode_val['CO_LSS_WAIT']}))
+        for t in trs:
+            vals = [e[2] for e in t.stores() if e[1] == 'lss->Mode']
+            if vals and vals[-1] not in legal:
+                bad_bytes.append((byte1, vals[-1]))
+    if bad_bytes:
+        ctx.ob(P, 'RF1-lss-global', 'COLssSwitchStateGlobal', 'reserved mode bytes 2..255', None)
+        ctx.find(P, 'RF1-lss-global', 'COLssSwitchStateGlobal', 'reserved-mode', m.loc('COLssSwitchStateGlobal', m.funcs['COLssSwitchStateGlobal'].line),
+                 'switch state global with a reserved mode byte leaves Mode at a value that is neither waiting nor configuration '
+                 '(e.g. byte %d -> %s; %d bytes affected): no service row allows that state, the slave stops answering LSS requests'
+                 % (bad_bytes[0][0], bad_bytes[0][1], len(bad_bytes)))
+    else:
+        ctx.ob(P, 'RF1-lss-global', 'COLssSwitchStateGlobal', 'reserved mode bytes 2..255', 'Mode stays one of the two service states (254 bytes)')
     if mode_val['CO_LSS_WAIT'] == mode_val['CO_LSS_CONF']:
         ctx.find(P, 'RF1-lss-global', 'COLssSwitchStateGlobal', 'same-mode',
                  m.loc('COLssSwitchStateGlobal', m.funcs['COLssSwitchStateGlobal'].line),
